@@ -190,6 +190,22 @@ pub fn corpus(tier: &str) -> Vec<Corpus> {
         out.push(Corpus { input: Input { modules: vec![("a".into(), mk(1)), ("b".into(), mk(2)), ("o".into(), format!("{o}{ev}"))] }, features: vec!["ambiguous_imports".into()] });
         out.push(Corpus { input: Input { modules: vec![("a".into(), mk(1)), ("b".into(), mk(2)), ("o".into(), format!("{o}{ev}{}", mk(3)))] }, features: vec!["ambiguous_imports".into()] });
     }
+    // items of one module whose names differ only in case, in a digit or in an underscore: any ordering of the
+    // output that ties on such names must not fall back on hash order (built repeatedly)
+    for names in [vec!["Rgb", "RGB", "rgb"], vec!["Vec3", "VEC3", "Vec3_", "vec3", "Vec30"], vec!["A", "a", "B", "b", "AB", "Ab", "aB", "ab"]] {
+        let mut text = String::new();
+        for (i, n) in names.iter().enumerate() {
+            match i % 3 {
+                0 => text.push_str(&format!("pub type {n} {{\n    pub x: u32,\n}}\nimpl {n} {{\n    #[address({:#x})]\n    pub fn f(&self);\n}}\n", 0x1000 + 16 * i)),
+                1 => text.push_str(&format!("pub type {n} {{\n    vftable {{\n        pub fn v(&self);\n    }},\n    pub x: *const u8,\n}}\n")),
+                _ => text.push_str(&format!("pub enum {n}: u32 {{\n    P,\n    Q,\n}}\n")),
+            }
+            text.push_str(&format!("#[address({:#x})]\npub extern g_{n}: u32;\n#[size(4), align(4)]\nextern type Ext{n};\n", 0x2000 + 8 * i));
+        }
+        out.push(Corpus { input: Input::single(text.clone()), features: vec!["ambiguous_imports".into(), "case_twins".into(), "repeated_builds_only".into()] });
+        // ... and spread over two modules that import each other's
+        out.push(Corpus { input: Input { modules: vec![("lib".into(), text.clone()), ("LIB".into(), text.replace("0x1", "0x3").replace("0x2", "0x4")), ("user".into(), format!("use lib;\nuse LIB;\npub type U {{\n    pub p: *const {},\n}}\n", names[0]))] }, features: vec!["ambiguous_imports".into(), "case_twins".into(), "repeated_builds_only".into()] });
+    }
     // inheritance shapes (repeated and diamond bases, vftables at any level): what is emitted per
     // ancestor (conversions, ambiguity notices, re-exposed members) must not depend on hash seeds
     for n in 2..=4 {
@@ -230,7 +246,7 @@ pub fn add_orders(n_modules: usize) -> Vec<Vec<usize>> {
 pub fn run(tier: &str, only: Option<&Value>) -> i32 {
     let mut rep = Report::new("C09", tier);
     let all = corpus(tier);
-    rep.rule = "E2: for every input set of the corpus (a vftable owner whose generated FooVftable item appears late, referrers naming it from fields / signatures / extern values / imports, derived types, inheritance shapes of up to 4 types (at most two bases per type at 4 in quick) with diamond and repeated ancestors, dependency graphs): all module-addition orders x all per-pass permutations of the resolution worklist, BFS with de-duplication of pass-boundary registry states, every execution on the real SemanticState::build via the cfg(pyxis_verif) hook; plus each input built twice more in-process without scheduler (fresh hash seeds; 24 times for ambiguous imports, 12 times for inheritance shapes). Invariant: one outcome class and byte-identical files. distinct = input sets with more than one reachable pass-boundary state".into();
+    rep.rule = "E2: for every input set of the corpus (a vftable owner whose generated FooVftable item appears late, referrers naming it from fields / signatures / extern values / imports, derived types, inheritance shapes of up to 4 types (at most two bases per type at 4 in quick) with diamond and repeated ancestors, dependency graphs, modules whose items differ only in the case of their names): all module-addition orders x all per-pass permutations of the resolution worklist, BFS with de-duplication of pass-boundary registry states, every execution on the real SemanticState::build via the cfg(pyxis_verif) hook; plus each input built twice more in-process without scheduler (fresh hash seeds; 24 times for ambiguous imports, 12 times for inheritance shapes). Invariant: one outcome class and byte-identical files. distinct = input sets with more than one reachable pass-boundary state".into();
     rep.assumptions = vec![
         "the hook permutes the worklist at pass boundaries only and keeps it stable inside a pass, as a HashMap does between rehashes".into(),
         "the two other HashMap iteration sites (extern-value resolution, file writing) cannot change the compared outcome; they are exercised through add-order permutation and repeated builds".into(),
